@@ -472,6 +472,73 @@ theorem C15_move_shape (l : Link) (chain : List TCfg) (now : Int) (busy : Bool) 
     exact e_sourceMove l now l' hi hfa
 
 
+theorem e_recvAlt (l : Link) (i : Nat) (now : Int) (l' : Link) (hi : EInv l) (h : l.recvAlt i now = some l') : EInv l' := by
+  unfold Link.recvAlt at h
+  cases hs : l.stages[i]? with
+  | none => simp [hs] at h
+  | some s =>
+    simp only [hs] at h
+    have hsi := hi.stages s (List.mem_of_getElem? hs)
+    unfold recvPart at h
+    by_cases h5 : (s.pc.wantsInput && !(l.detached && i + 1 == l.stages.length)) = true
+    · rw [if_pos h5] at h
+      have hw : s.pc.wantsInput = true := by simp only [Bool.and_eq_true] at h5; exact h5.1
+      cases hio : l.inputOf i with
+      | none => simp [hio] at h
+      | some r =>
+        obtain ⟨c, src⟩ := r
+        simp only [hio, Option.some.injEq] at h
+        subst h
+        have h1 : EInv (l.consume i src c.isSome now) := by
+          apply e_consume l hi
+          intro hsrc hb
+          subst hsrc
+          unfold Link.inputOf at hio
+          simp only [hs] at hio
+          split at hio
+          · cases hio
+          · split at hio
+            · rename_i c' hoff; exact ⟨c', hoff⟩
+            · split at hio <;> cases hio
+        -- the receiving stub is unchanged by the consumption except for its buffer
+        refine e_stages _ h1 i _ (fun s' hs' => ?_) _
+        have hs'ok := h1.stages s' (List.mem_of_getElem? hs')
+        have hpc' : s'.pc = s.pc := by
+          unfold Link.consume at hs'
+          split at hs'
+          · rw [hs] at hs'; cases hs'; rfl
+          · cases src with
+            | buffered =>
+              simp only at hs'
+              rw [getElem?_modifyAt, if_pos rfl, hs] at hs'
+              simp only [Option.map_some, Option.some.injEq] at hs'
+              subst hs'; rfl
+            | rendezvous =>
+              simp only at hs'
+              by_cases h0 : i = 0
+              · subst h0
+                have : l.ackUpstream 0 now = { l with srcPend := none } := by simp [Link.ackUpstream]
+                rw [this, hs] at hs'; cases hs'; rfl
+              · rw [ackUpstream_pos' l hi.noctl i h0] at hs'
+                simp only at hs'
+                rw [getElem?_modifyAt, if_neg (by omega), hs] at hs'
+                cases hs'; rfl
+        exact (fire_eok s' hs'ok (.input c now drawsConst) (by simp only [Receivable]; rw [hpc']; exact hw)).1
+    · rw [if_neg h5] at h; cases h
+
+/-- … whichever goroutine moves, whichever case a `select` picks. -/
+theorem C15_anymove_shape (l : Link) (chain : List TCfg) (now : Int) (busy : Bool) (l' : Link) (hi : EInv l)
+    (h : l.AnyMove chain now busy l') : EInv l' := by
+  rcases h.2 with h' | h' | ⟨i, h'⟩ | ⟨i, h'⟩ | h' | ⟨i, h'⟩ | ⟨i, h'⟩ | h'
+  · rw [ctlMove_none' l chain now hi.noctl] at h'; cases h'
+  · exact e_sinkMove l now l' hi h'
+  · exact e_stageMove l i now busy l' hi h'
+  · exact e_bufferMove l i now l' hi h'
+  · exact e_sourceMove l now l' hi h'
+  · exact e_recvAlt l i now l' hi h'
+  · rw [intrAlt_none l i now (fun s hs => (hi.stages s (List.mem_of_getElem? hs)).intr)] at h'; cases h'
+  · rw [ctlTakeAlt_none l now hi.noctl] at h'; cases h'
+
 theorem EInv_new (chain : List TCfg) (now : Int) : EInv (Link.new chain now) := by
   refine ⟨?_, rfl, rfl, rfl⟩
   intro s hs
@@ -855,6 +922,76 @@ theorem C15_move_sq (l : Link) (chain : List TCfg) (now : Int) (busy : Bool) (l'
     exact sq_keeps hq (k_sourceMove l now l' hfa)
 
 
+theorem k_recvAlt (l : Link) (i : Nat) (now : Int) (l' : Link) (hi : EInv l) (h : l.recvAlt i now = some l') : Keeps l l' := by
+  unfold Link.recvAlt at h
+  cases hs : l.stages[i]? with
+  | none => simp [hs] at h
+  | some s =>
+    simp only [hs] at h
+    have hsi := hi.stages s (List.mem_of_getElem? hs)
+    unfold recvPart at h
+    by_cases h5 : (s.pc.wantsInput && !(l.detached && i + 1 == l.stages.length)) = true
+    · rw [if_pos h5] at h
+      have hw : s.pc.wantsInput = true := by simp only [Bool.and_eq_true] at h5; exact h5.1
+      have hopen : s.st.closed = false := by
+        cases hc : s.st.closed with
+        | false => rfl
+        | true => exact absurd hw (not_receivable_closed s hsi hc (.input none now []))
+      cases hio : l.inputOf i with
+      | none => simp [hio] at h
+      | some r =>
+        obtain ⟨c, src⟩ := r
+        simp only [hio, Option.some.injEq] at h
+        subst h
+        have h1 : Keeps l (l.consume i src c.isSome now) := by
+          apply k_consume l hi
+          intro hsrc _
+          subst hsrc
+          exact inputOf_rendezvous l i s hs c hio
+        refine keeps_trans h1 (keeps_stages _ _ i _ rfl rfl rfl ?_)
+        intro s' hs' hc'
+        -- the receiving stub was not closed
+        exfalso
+        have hlt : i < l.stages.length := by
+          rcases Nat.lt_or_ge i l.stages.length with h' | h'
+          · exact h'
+          · rw [List.getElem?_eq_none h'] at hs; cases hs
+        -- its closedness is that of `s` (consumption changes at most its buffer, or its upstream)
+        have hcl' : s'.st.closed = s.st.closed := by
+          unfold Link.consume at hs'
+          split at hs'
+          · rw [hs] at hs'; cases hs'; rfl
+          · cases src with
+            | buffered =>
+              simp only at hs'
+              rw [getElem?_modifyAt, if_pos rfl, hs] at hs'
+              simp only [Option.map_some, Option.some.injEq] at hs'
+              subst hs'; rfl
+            | rendezvous =>
+              simp only at hs'
+              by_cases h0 : i = 0
+              · subst h0
+                have : l.ackUpstream 0 now = { l with srcPend := none } := by simp [Link.ackUpstream]
+                rw [this, hs] at hs'; cases hs'; rfl
+              · rw [ackUpstream_pos' l hi.noctl i h0] at hs'
+                simp only at hs'
+                rw [getElem?_modifyAt, if_neg (by omega), hs] at hs'
+                cases hs'; rfl
+        rw [hcl', hopen] at hc'; cases hc'
+    · rw [if_neg h5] at h; cases h
+
+theorem C15_anymove_sq (l : Link) (chain : List TCfg) (now : Int) (busy : Bool) (l' : Link) (hi : EInv l) (hq : SQ l)
+    (h : l.AnyMove chain now busy l') : SQ l' := by
+  rcases h.2 with h' | h' | ⟨i, h'⟩ | ⟨i, h'⟩ | h' | ⟨i, h'⟩ | ⟨i, h'⟩ | h'
+  · rw [ctlMove_none' l chain now hi.noctl] at h'; cases h'
+  · exact sq_sinkMove l now l' hi hq h'
+  · exact sq_keeps hq (k_stageMove l i now busy l' hi h')
+  · exact sq_keeps hq (k_bufferMove l i now l' hi h')
+  · exact sq_keeps hq (k_sourceMove l now l' h')
+  · exact sq_keeps hq (k_recvAlt l i now l' hi h')
+  · rw [intrAlt_none l i now (fun s hs => (hi.stages s (List.mem_of_getElem? hs)).intr)] at h'; cases h'
+  · rw [ctlTakeAlt_none l now hi.noctl] at h'; cases h'
+
 theorem SQ_new (chain : List TCfg) (now : Int) : SQ (Link.new chain now) := by
   intro h; cases h
 
@@ -1050,13 +1187,14 @@ theorem C15_at_rest (l : Link) (chain : List TCfg) (now : Int) (hi : EInv l) (hs
   exact ⟨hsd, hallc, hdcl, hnodrain⟩
 
 
-/-- Executions of a link on which no API call works: moves of its goroutines, and what the
+/-- Executions of a link on which no API call works: moves of its goroutines (any enabled one:
+every schedule), and what the
 peers and the proxy do to it from outside (more data, end of stream or reset, a receiver that
 stops or resumes reading, writes that start failing, the proxy cutting the connection). -/
 inductive ExecE (chain : List TCfg) (l0 : Link) : Link → Prop
   | refl : ExecE chain l0 l0
   | move {l : Link} (now : Int) (busy : Bool) (l' : Link) :
-      ExecE chain l0 l → l.move chain now busy = some l' → ExecE chain l0 l'
+      ExecE chain l0 l → l.AnyMove chain now busy l' → ExecE chain l0 l'
   | env {l : Link} (q : List Bytes) (eof ready fail cut : Bool) (hi' : Nat) :
       ExecE chain l0 l →
       ExecE chain l0 { l with srcQ := q, srcEOF := eof, sinkReady := ready, sinkFail := fail, srcCut := cut, cutHi := hi' }
@@ -1065,7 +1203,7 @@ theorem C15_exec (chain : List TCfg) (now0 : Int) {l : Link} (h : ExecE chain (L
     EInv l ∧ SQ l := by
   induction h with
   | refl => exact ⟨EInv_new chain now0, SQ_new chain now0⟩
-  | move now busy l' _ hm ih => exact ⟨C15_move_shape _ chain now busy l' ih.1 hm, C15_move_sq _ chain now busy l' ih.1 ih.2 hm⟩
+  | move now busy l' _ hm ih => exact ⟨C15_anymove_shape _ chain now busy l' ih.1 hm, C15_anymove_sq _ chain now busy l' ih.1 ih.2 hm⟩
   | env q eof ready fail cut hi' _ ih => exact ⟨EInv_env _ ih.1 q eof ready fail cut hi', SQ_env _ ih.2 q eof ready fail cut hi'⟩
 
 /-- **C15.**  For every chain of toxics of any type and attribute values, after any execution of
@@ -1100,7 +1238,7 @@ theorem ExecE.runE {chain : List TCfg} {l0 : Link} (now : Int) :
     intro l h
     simp only [ExR.runE]
     split
-    · rename_i l' hm; exact ih l' (ExecE.move now false l' h hm)
+    · rename_i l' hm; exact ih l' (ExecE.move now false l' h (anyMove_of_move l chain now false l' hm))
     · exact h
 
 def y1 : Link := runE ch 0 64 { l0 with srcQ := [[1], [2, 3]], srcEOF := false, sinkReady := true, sinkFail := false, srcCut := false, cutHi := 0 }
